@@ -149,7 +149,9 @@ func (p *BundlePropertyExperimenter) UnmarshalBinary(data []byte) error {
 	p.ExperimenterType = binary.BigEndian.Uint32(data[n:])
 	n += 4
 	if len(data) < int(p.Length) {
-		p.data = data[n:]
+		// Copy: the caller may reuse its buffer once decoding has returned.
+		p.data = make([]byte, len(data)-n)
+		copy(p.data, data[n:])
 	}
 	return nil
 }
